@@ -9,10 +9,29 @@ GEN_FUNCS = ["math.make_frame", "math.orthogonals", "math.closest_segment_point"
 LEVEL_TEXT = ("Theorems over the reals about closed-form contact functions regenerated from collision_primitive_core.py/math.py on every run: make_frame(a), a != 0, is a proper rotation "
               "whose first row is a/|a|; sphere-sphere, plane-sphere, plane-ellipsoid, sphere-capsule, sphere-cylinder (5 regimes), sphere-box (outside/inside): unit normal, dist = signed "
               "separation along it, pos = midpoint of the two surface points; the 1e-6 regulariser of closest_segment_point is quantified (|t-t*| <= eps/(L+eps), position error <= 5e-4). "
-              "Remaining pairs (capsule-capsule, plane-box/capsule/cylinder, box-box, all convex/GJK pairs) are covered only by the sampled comparison with mujoco.mj_collision.")
+              "Remaining primitive pairs (capsule-capsule, plane-box/capsule/cylinder, box-box) are covered by the sampled comparison with mujoco.mj_collision. "
+              "All convex (GJK/EPA) pairs that accept a margin (sphere/capsule/ellipsoid/cylinder/box/mesh combinations, 14 pair types) are covered by a sampled geometric oracle on the real "
+              "mjw.collision with POSITIVE margins in deep (core of geom1 inside geom2), shallow and margin-band regimes: dist = support-function gap of the un-inflated geoms along the reported "
+              "normal, pos on the mid-plane, contact independent of the margin (same pose re-evaluated with margin 0 in a second world), dist = MuJoCo C, closed form (dist, pos, normal) in the band.")
 LEVEL_NOTE = ("C20_partial: proved for 6 primitive pair functions + frame construction; degenerate inputs (sphere centre exactly on a cylinder axis / capsule segment) are documented "
-              "false cases (Props/C20Witness.lean). Trusted: Lean kernel + Mathlib, tier-A translator (func differential), float round-off not modelled.")
-ASSUMPTIONS = ["hypotheses: non-coincident centres / unit plane normal / orthogonal rotation matrices, as produced by kinematics (C23)"]
+              "false cases (Props/C20Witness.lean). The GJK/EPA path (collision_gjk.gjk_phase/epa_phase take Geom structs and loops; not emitted by the translator) is sampled only: tolerances "
+              "3e-4 + 2e-3 R for dist (R = smaller bounding radius), 1e-3 + 5e-3 R for pos; pairs with an ellipsoid 1e-3 + 0.03 R / 2e-3 + 0.1 R because the float32 EPA/GJK witness points on "
+              "curved geoms are that inaccurate in the unchanged tree (MuJoCo C is exact there); ccd_iterations raised to 200 (with the default 35 both MuJoCo C and MJWarp stop before "
+              "convergence on deep ellipsoid contacts and are up to 0.05 off their own normal; inputs on which MuJoCo C's own contact still misses its own support-function gap are counted as "
+              "unconverged and only compared with MuJoCo C). Trusted: Lean kernel + Mathlib, tier-A translator (func differential), float round-off not modelled.")
+ASSUMPTIONS = ["hypotheses: non-coincident centres / unit plane normal / orthogonal rotation matrices, as produced by kinematics (C23)",
+               "convex pairs: the EPA iteration budget (opt.ccd_iterations) is large enough for convergence to opt.ccd_tolerance; the sampled scenes use 200"]
+
+RULE = ("func-level: random float32 arguments (uniform/normal/special); scene-level: two-geom scenes cycling over 11 primitive pairs (capsule-capsule twice) at random poses/sizes/margins, "
+        "(capsule-capsule: half of the scenes end-to-end/L/V), deepest contact checked against the support-function gap along its own normal and the midway rule, "
+        "contacts compared with mujoco.mj_collision and frames checked for orthonormality; nontrivial = scenes with at least one contact. "
+        "Convex (GJK/EPA) pairs: scenes of 6 isolated pairs rotating deterministically over all 14 convex pair types that accept a margin (sphere/capsule-first pairs in every scene; "
+        "box-mesh and mesh-mesh with multiccd disabled), regimes deep (sphere centre / capsule segment / geom centre INSIDE the other geom) - shallow - deep - margin band, "
+        "pair margins 0.04/0.06/0.1 carried by geom1, geom2 or both, ccd_iterations 200 so that EPA converges; each pose is evaluated in one launch with the model margins (world 0) "
+        "and with all margins 0 (world 1); checked: proper-rotation frame, (geom1, geom2) order, dist = support-function gap along the reported normal (both worlds), pos on the mid-plane, "
+        "dist (and pos along the normal) independent of the margin, dist = MuJoCo C dist for both margin settings (where MuJoCo C reports a single contact; where that contact is itself off "
+        "its own support-function gap EPA has not converged and the geometric identities are skipped and counted), dist not below the separation along the construction direction, closed form "
+        "(dist, pos, normal) in the margin band, no contact beyond the margin, no missing contact; worst error/tolerance ratios are reported in ccd_worst_error_over_tolerance")
 
 PAIRS = [("sphere", "sphere"), ("plane", "sphere"), ("sphere", "capsule"), ("plane", "ellipsoid"), ("sphere", "cylinder"), ("sphere", "box"), ("plane", "capsule"),
          ("capsule", "capsule"), ("plane", "box"), ("plane", "cylinder"), ("capsule", "box"), ("capsule", "capsule")]
@@ -138,18 +157,330 @@ def _oracle(ctx, ncases):
   return evals, nontrivial, samples, findings, hist
 
 
+# -------------------------------------------------------------------------------------------------
+# convex (GJK/EPA, "CCD") pairs with POSITIVE margins in deep / shallow / margin-band regimes
+#
+# every pair type that mjw.collision routes through collision_convex.py and that put_model accepts with a margin
+# (box/mesh pairs with a margin are accepted only with multiccd disabled)
+CCD_PAIRS = [("sphere", "ellipsoid"), ("sphere", "mesh"), ("capsule", "ellipsoid"), ("capsule", "cylinder"), ("capsule", "mesh"), ("ellipsoid", "ellipsoid"),
+             ("ellipsoid", "cylinder"), ("ellipsoid", "box"), ("ellipsoid", "mesh"), ("cylinder", "cylinder"), ("cylinder", "box"), ("cylinder", "mesh")]
+CCD_PAIRS_NOMULTI = [("box", "mesh"), ("mesh", "mesh")]
+CCD_REGIMES = ["deep", "shallow", "deep", "band"]
+CCD_MARGINS = [0.06, 0.04, 0.1]
+CCD_SPLIT = ["both", "g1", "g2"]            # which geom carries the margin (pair margin = sum of the two geom margins)
+CCD_SLOTS = 6                               # geom pairs per scene
+# EPA must be allowed to converge: with the default of 35 iterations both MuJoCo C and MJWarp stop early on deeply penetrating curved
+# geoms (ellipsoids) and report a depth that is up to ~0.05 off the separation along their own normal; with the cap out of the way any
+# disagreement with the geometry is a defect of the code and not of the iteration budget
+CCD_ITERATIONS = 200
+CCD_TOLERANCE = 1e-6
+_MESHES = {
+  "cube": "-1 -1 -1 1 -1 -1 1 1 -1 1 1 1 1 -1 1 -1 1 -1 -1 1 1 -1 -1 1",
+  "tetra": "1 1 1 1 -1 -1 -1 1 -1 -1 -1 1",
+  "wedge": "-1 -1 -1 1 -1 -1 1 1 -1 -1 1 -1 -1 -1 .6 1 -1 .6",
+  "octa": "1.2 0 0 -1.2 0 0 0 1 0 0 -1 0 0 0 .8 0 0 -.8",
+}
+
+
+def _ccd_size(rng, t):
+  if t == "sphere":
+    return [rng.uniform(.06, .2)]
+  if t == "capsule":
+    return [rng.uniform(.06, .15), rng.uniform(.1, .3)]
+  if t == "cylinder":
+    return [rng.uniform(.08, .2), rng.uniform(.08, .3)]
+  return list(rng.uniform(.08, .3, size=3))
+
+
+def _rand_rot(rng):
+  import mujoco
+  q = rng.normal(size=4); q /= np.linalg.norm(q)
+  R = np.zeros(9); mujoco.mju_quat2Mat(R, q)
+  return q, R.reshape(3, 3)
+
+
+def _mesh_verts(mjm, g):
+  mid = int(mjm.geom_dataid[g])
+  return mjm.mesh_vert[mjm.mesh_vertadr[mid]: mjm.mesh_vertadr[mid] + mjm.mesh_vertnum[mid]].astype(np.float64)
+
+
+def _support_point_local(mjm, g, dl):
+  """a point of geom g (geom frame) that is extreme in the unit direction dl (geom frame)"""
+  import mujoco
+  T = mujoco.mjtGeom
+  t, sz = int(mjm.geom_type[g]), mjm.geom_size[g].astype(np.float64)
+  if t == T.mjGEOM_SPHERE:
+    return sz[0] * dl
+  if t == T.mjGEOM_CAPSULE:
+    return sz[0] * dl + np.array([0, 0, sz[1] * (1.0 if dl[2] >= 0 else -1.0)])
+  if t == T.mjGEOM_ELLIPSOID:
+    return sz * sz * dl / np.linalg.norm(sz * dl)
+  if t == T.mjGEOM_CYLINDER:
+    h = np.hypot(dl[0], dl[1])
+    rad = sz[0] * np.array([dl[0], dl[1]]) / h if h > 1e-9 else np.zeros(2)
+    return np.array([rad[0], rad[1], sz[1] * (1.0 if dl[2] >= 0 else -1.0)])
+  if t == T.mjGEOM_BOX:
+    return np.where(dl >= 0, 1.0, -1.0) * sz
+  v = _mesh_verts(mjm, g)
+  return v[int(np.argmax(v @ dl))]
+
+
+def _interior_point_local(rng, mjm, g):
+  """a random point well inside geom g (geom frame)"""
+  import mujoco
+  T = mujoco.mjtGeom
+  t, sz = int(mjm.geom_type[g]), mjm.geom_size[g].astype(np.float64)
+  u = rng.normal(size=3); u /= np.linalg.norm(u)
+  if t == T.mjGEOM_ELLIPSOID:
+    return sz * u * rng.uniform(0, 0.7)
+  if t == T.mjGEOM_CYLINDER:
+    a = rng.uniform(0, 2 * np.pi)
+    return np.array([np.cos(a), np.sin(a), 0.0]) * sz[0] * 0.7 * np.sqrt(rng.uniform()) + np.array([0, 0, sz[1] * rng.uniform(-0.7, 0.7)])
+  if t == T.mjGEOM_BOX:
+    return sz * rng.uniform(-0.7, 0.7, size=3)
+  v = _mesh_verts(mjm, g)
+  w = rng.dirichlet(np.ones(len(v)))
+  return 0.7 * (w @ v) + 0.3 * v.mean(axis=0)
+
+
+def _core_point_local(rng, mjm, g):
+  """a point of the 'core' of geom g (sphere: centre, capsule: a point of the segment, other types: the centre), geom frame"""
+  import mujoco
+  if int(mjm.geom_type[g]) == mujoco.mjtGeom.mjGEOM_CAPSULE:
+    return np.array([0, 0, mjm.geom_size[g][1] * rng.uniform(-0.9, 0.9)])
+  return np.zeros(3)
+
+
+def _ccd_scene_xml(rng, pairs, margins, splits, multiccd):
+  """one scene holding len(pairs) isolated geom pairs (contype = conaffinity = bit i): geom1 fixed to the world, geom2 in a free body"""
+  assets, body = [], []
+  for i, (t1, t2) in enumerate(pairs):
+    gx = []
+    for k, t in enumerate((t1, t2)):
+      mg = {"both": 0.5 * margins[i], "g1": margins[i] if k == 0 else 0.0, "g2": margins[i] if k == 1 else 0.0}[splits[i]]
+      attr = f'name="p{i}g{k + 1}" contype="{1 << i}" conaffinity="{1 << i}" margin="{mg:.4f}"'
+      if t == "mesh":
+        mname = list(_MESHES)[int(rng.integers(len(_MESHES)))]
+        sc = rng.uniform(.08, .25, size=3)
+        assets.append(f'<mesh name="m{i}_{k}" scale="{sc[0]:.4f} {sc[1]:.4f} {sc[2]:.4f}" vertex="{_MESHES[mname]}"/>')
+        gx.append(f'<geom {attr} type="mesh" mesh="m{i}_{k}"')
+      else:
+        gx.append(f'<geom {attr} type="{t}" size="{" ".join(f"{x:.4f}" for x in _ccd_size(rng, t))}"')
+    q1, _ = _rand_rot(rng)
+    p1 = np.array([(i % 3) * 1.0, (i // 3) * 1.0, 0.0]) + rng.uniform(-0.2, 0.2, size=3)
+    body.append(f'{gx[0]} pos="{p1[0]:.4f} {p1[1]:.4f} {p1[2]:.4f}" quat="{" ".join(f"{x:.6f}" for x in q1)}"/>')
+    body.append(f'<body pos="{p1[0]:.4f} {p1[1]:.4f} {p1[2] + 2.0:.4f}"><freejoint/>{gx[1]}/></body>')
+  return (f'<mujoco><option ccd_iterations="{CCD_ITERATIONS}" ccd_tolerance="{CCD_TOLERANCE}"><flag multiccd="{"enable" if multiccd else "disable"}"/></option><asset>{"".join(assets)}</asset>'
+          f'<worldbody>{"".join(body)}</worldbody></mujoco>')
+
+
+def _ccd_place(rng, mjm, mjd, g1, g2, regime, margin):
+  """sets the free body of geom g2 so that the pair (g1, g2) is in `regime`; returns what the construction guarantees:
+       deep:    a core point of g1 (sphere centre / point of the capsule segment / centre) is an interior point of g2
+       shallow: support points s1 (g1, direction u) and s2 (g2, direction -u) satisfy s2 = s1 + target u, target < 0:
+                overlap along u is -target, so the penetration depth (min over directions) is <= -target; a sphere/capsule
+                core stays outside g2 inflated by margin/2
+       band:    same with 0 < target < margin: the two geoms are separated by exactly target along u (closed form)"""
+  import mujoco
+  x1, R1 = mjd.geom_xpos[g1].copy(), mjd.geom_xmat[g1].reshape(3, 3).copy()
+  _, R2 = _rand_rot(rng)
+  info = {"regime": regime}
+  T = mujoco.mjtGeom
+  if regime == "deep":
+    anchor = x1 + R1 @ _core_point_local(rng, mjm, g1)
+    x2 = anchor - R2 @ _interior_point_local(rng, mjm, g2)
+  else:
+    u = rng.normal(size=3); u /= np.linalg.norm(u)
+    s1 = x1 + R1 @ _support_point_local(mjm, g1, R1.T @ u)
+    if regime == "band":
+      target = rng.uniform(0.15, 0.85) * margin
+    else:
+      r1 = float(mjm.geom_size[g1][0]) if int(mjm.geom_type[g1]) in (T.mjGEOM_SPHERE, T.mjGEOM_CAPSULE) else None
+      lim = (r1 - 0.5 * margin) if r1 is not None else 0.5 * float(min(mjm.geom_rbound[g1], mjm.geom_rbound[g2]))
+      target = -rng.uniform(0.1, 0.6) * lim
+    x2 = s1 + target * u - R2 @ _support_point_local(mjm, g2, -(R2.T @ u))
+    info.update(u=u, target=float(target), s1=s1, s2=s1 + target * u)
+  # body pose from the wanted geom pose (mesh geoms have a compiler-made offset in their body)
+  b = int(mjm.geom_bodyid[g2])
+  Rl = np.zeros(9); mujoco.mju_quat2Mat(Rl, mjm.geom_quat[g2]); Rl = Rl.reshape(3, 3)
+  Rb = R2 @ Rl.T
+  pb = x2 - Rb @ mjm.geom_pos[g2]
+  adr = int(mjm.jnt_qposadr[mjm.body_jntadr[b]])
+  qb = np.zeros(4); mujoco.mju_mat2Quat(qb, Rb.reshape(-1))
+  mjd.qpos[adr: adr + 3] = pb
+  mjd.qpos[adr + 3: adr + 7] = qb
+  return info
+
+
+def _ccd_tols(t1, t2, scale):
+  """(dist tolerance, position tolerance) for a convex pair of size `scale` (smaller bounding radius)"""
+  if "ellipsoid" in (t1, t2):
+    return 1e-3 + 0.03 * scale, 2e-3 + 0.1 * scale
+  return 3e-4 + 2e-3 * scale, 1e-3 + 5e-3 * scale
+
+
+def _ccd_oracle(ctx, nscenes, acc=None):
+  """contacts of the convex (GJK/EPA) path with positive margins, checked against independent geometry:
+       (a) frame is a proper rotation; (b) dist == support-function gap of the two (un-inflated) geoms along the reported normal;
+       (c) pos is midway between the two supporting planes; (d) the SAME pose evaluated with all margins set to 0 (second world of
+       the same launch) reports the same contact: the signed separation of two geoms does not depend on the margin;
+       (e) closed form in the margin band (dist = target, normal = u, pos = midpoint of the two support points);
+       (f) the reported penetration is not deeper than the overlap along the construction direction (depth = min over directions)"""
+  import copy
+  import warnings
+  import mujoco
+  import warp as wp
+  import mujoco_warp as mjw
+  from harness.props.common import Acc
+  from harness.props.c04 import _support
+  acc = acc or Acc()
+  worst = acc.__dict__.setdefault("worst", {})
+  rng = np.random.default_rng(ctx.seed * 1000 + 2020)
+  for sc_i in range(nscenes):
+    multiccd = sc_i % 3 != 2
+    pool = CCD_PAIRS if multiccd else CCD_PAIRS + CCD_PAIRS_NOMULTI
+    pairs = [pool[(sc_i * CCD_SLOTS + i) % len(pool)] for i in range(CCD_SLOTS)]
+    if not multiccd:
+      pairs[:2] = CCD_PAIRS_NOMULTI
+    # the sphere / capsule-first pairs (the pairs with the shrink-and-inflate fast path) are in every scene
+    pairs[-1] = CCD_PAIRS[[0, 1, 2, 3, 4][sc_i % 5]]
+    regimes = [CCD_REGIMES[(sc_i // 2 + i) % len(CCD_REGIMES)] for i in range(CCD_SLOTS)]
+    regimes[-1] = "deep"
+    margins = [CCD_MARGINS[(sc_i + 2 * i) % len(CCD_MARGINS)] for i in range(CCD_SLOTS)]
+    splits = [CCD_SPLIT[(sc_i + i) % len(CCD_SPLIT)] for i in range(CCD_SLOTS)]
+    xml = _ccd_scene_xml(rng, pairs, margins, splits, multiccd)
+    mjm = mujoco.MjModel.from_xml_string(xml)
+    mjd = mujoco.MjData(mjm)
+    mujoco.mj_kinematics(mjm, mjd)
+    gid = [(mujoco.mj_name2id(mjm, mujoco.mjtObj.mjOBJ_GEOM, f"p{i}g1"), mujoco.mj_name2id(mjm, mujoco.mjtObj.mjOBJ_GEOM, f"p{i}g2")) for i in range(CCD_SLOTS)]
+    infos = [_ccd_place(rng, mjm, mjd, gid[i][0], gid[i][1], regimes[i], margins[i]) for i in range(CCD_SLOTS)]
+    mujoco.mj_forward(mjm, mjd)
+    mjm0 = copy.copy(mjm)
+    mjm0.geom_margin[:] = 0
+    mjd0 = mujoco.MjData(mjm0)
+    mjd0.qpos[:] = mjd.qpos
+    mujoco.mj_forward(mjm0, mjd0)
+    replay = {"xml": xml, "qpos": mjd.qpos.tolist()}
+    with warnings.catch_warnings():
+      warnings.simplefilter("ignore", UserWarning)      # "MULTICCD is enabled, but the scene contains CCD pairs without multicontact support"
+      m = mjw.put_model(mjm)
+    # world 0: the margins of the model; world 1: the same pose with every margin 0
+    m.geom_margin = wp.array(np.stack([mjm.geom_margin, np.zeros(mjm.ngeom)]).astype(np.float32), dtype=float)
+    d = mjw.put_data(mjm, mjd, nworld=2, nconmax=8 * CCD_SLOTS, njmax=64 * CCD_SLOTS)
+    mjw.kinematics(m, d)
+    mjw.collision(m, d)
+    acc.evals += 1
+    n = int(d.nacon.numpy()[0])
+    if n > d.naconmax:
+      acc.hit("ccd:overflow-skipped")
+      continue
+    cdist, cpos, cframe = d.contact.dist.numpy()[:n].astype(np.float64), d.contact.pos.numpy()[:n].astype(np.float64), d.contact.frame.numpy()[:n].astype(np.float64)
+    cgeom, cworld = d.contact.geom.numpy()[:n], d.contact.worldid.numpy()[:n]
+    for i, (t1, t2) in enumerate(pairs):
+      key, info, margin = f"{t1}-{t2}", infos[i], margins[i]
+      regime = info["regime"]
+      g1, g2 = gid[i]
+      site = f"collision ccd {key}"
+      rp = dict(replay, pair=i, regime=regime, margin=margin)
+      scale = float(min(mjm.geom_rbound[g1], mjm.geom_rbound[g2]))
+      tol_d, tol_p = _ccd_tols(t1, t2, scale)
+
+      def bad(name, err, tol):
+        """records the worst error/tolerance ratio per check (visible head-room) and decides"""
+        worst[f"{name}:{key}"] = max(worst.get(f"{name}:{key}", 0.0), round(float(err) / tol, 3))
+        return err > tol
+
+      deepest = {}
+      for w in (0, 1):
+        idx = [k for k in range(n) if cworld[k] == w and {int(cgeom[k][0]), int(cgeom[k][1])} == {g1, g2}]
+        if idx:
+          deepest[w] = min(idx, key=lambda k: cdist[k])
+        for k in idx:
+          F = cframe[k]
+          if np.abs(F @ F.T - np.eye(3)).max() > 1e-4 or np.linalg.det(F) < 0.99:
+            acc.find(f"{key}: contact frame is not a proper rotation", site, "frame", **rp)
+          if (int(cgeom[k][0]), int(cgeom[k][1])) != (g1, g2):
+            acc.find(f"{key}: contact geoms are not in (geom1, geom2) order", site, "geom-order", **rp)
+      acc.hit(f"ccd:{key}:{regime}")
+      acc.hit(f"ccd:regime:{regime}")
+      acc.hit(f"ccd:margin:{margin}:{splits[i]}")
+      if 0 not in deepest:
+        # deep and shallow overlap by construction; in the band the separation along u is exactly target < margin
+        acc.find(f"{key} ({regime}, margin {margin}): no contact reported although the geoms are within the margin by construction", site, "missing-contact", **rp)
+        continue
+      acc.distinct.add((key, regime, round(float(cdist[deepest[0]]), 4)))
+      # MuJoCo C (double precision, same iteration budget) on the same pose, with the margins and with margin 0: deepest contact of the pair
+      cref = {w: [(float(c.dist), c.frame[:3].copy()) for c in dd.contact if {int(c.geom[0]), int(c.geom[1])} == {g1, g2}] for w, dd in ((0, mjd), (1, mjd0))}
+      for w, k in deepest.items():
+        nn = cframe[k][0]
+        a, b = _support(mjm, mjd, g1, nn), _support(mjm, mjd, g2, -nn)
+        gap = -b - a
+        tag = f"margin {margin}" if w == 0 else "margin 0"
+        if len(cref[w]) == 1:
+          cd, cn = cref[w][0]
+          acc.hit("ccd:mujoco-dist-compared")
+          if bad("dist-vs-mujoco", abs(cd - cdist[k]), tol_d):
+            acc.find(f"{key} ({regime}, {tag}): reported dist {cdist[k]:.6g}, MuJoCo C {cd:.6g}", site, "dist-vs-mujoco", **rp)
+          # domain: EPA converged. MuJoCo C runs the same algorithm in double precision; where ITS single contact is off the
+          # support-function gap along ITS normal the algorithm has not converged on this input (near-concentric, near-spherical geoms)
+          # and the geometric identities say nothing about the port
+          if abs(-_support(mjm, mjd, g2, -cn) - _support(mjm, mjd, g1, cn) - cd) > 0.25 * tol_d:
+            acc.hit("ccd:epa-unconverged-in-mujoco-c:geometry-skipped")
+            continue
+        else:
+          # MuJoCo C makes several contacts for some pairs (cylinder-box, ...) whose dist is local to each point: not comparable
+          acc.hit(f"ccd:mujoco-has-{len(cref[w])}-contacts:not-compared")
+        acc.hit(f"ccd:gap-checked:{'margin' if w == 0 else 'margin0'}")
+        if bad("dist-vs-normal", abs(gap - cdist[k]), tol_d):
+          acc.find(f"{key} ({regime}, {tag}): reported dist {cdist[k]:.6g} is not the separation {gap:.6g} of the two geoms along the reported normal",
+                   site, "dist-vs-normal", **rp)
+        elif bad("pos-midway", abs(float(cpos[k] @ nn) - (a - b) / 2), tol_p):
+          acc.find(f"{key} ({regime}, {tag}): contact position is off the mid-plane between the two surfaces by {float(cpos[k] @ nn) - (a - b) / 2:.3g}", site, "pos-midway", **rp)
+        if regime != "deep" and bad("dist-not-extremal", max(0.0, info["target"] - cdist[k]), tol_d):
+          acc.find(f"{key} ({regime}, {tag}): reported dist {cdist[k]:.6g} is below the separation {info['target']:.6g} along the construction direction "
+                   f"(the signed distance is the maximum over directions)", site, "dist-not-extremal", **rp)
+      k0 = deepest[0]
+      if regime == "band":
+        # closed form: separated by exactly target along u, closest points s1, s2 (unique for a generic direction u)
+        acc.hit("ccd:band-closed-form")
+        # the normal is the normalised difference of two witness points |target| apart, each good to ~tol_p / 2; tangentially a
+        # witness point on a curved surface is only as good as sqrt(2 R * dist error): twice the mid-plane tolerance
+        tol_n = 5e-3 + tol_p / abs(info["target"])
+        e_d, e_p = abs(cdist[k0] - info["target"]), float(np.abs(cpos[k0] - 0.5 * (info["s1"] + info["s2"])).max())
+        e_n = float(np.abs(cframe[k0][0] - info["u"]).max())
+        if bad("band-dist", e_d, tol_d) or bad("band-pos", e_p, 2 * tol_p) or bad("band-normal", e_n, tol_n):
+          acc.find(f"{key} (band, margin {margin}): contact differs from the closed form (dist error {e_d:.3g}, pos error {e_p:.3g}, normal error {e_n:.3g})",
+                   site, "band-closed-form", **rp)
+        if 1 in deepest:
+          acc.find(f"{key} (band): contact reported with margin 0 although the geoms are separated by {info['target']:.4g}", site, "contact-beyond-margin", **rp)
+        continue
+      if 1 not in deepest:
+        acc.find(f"{key} ({regime}): penetrating pair reports no contact with margin 0", site, "missing-contact", **rp)
+        continue
+      k1 = deepest[1]
+      acc.hit(f"ccd:margin-independence:{regime}")
+      if bad("dist-margin-independent", abs(cdist[k0] - cdist[k1]), tol_d):
+        acc.find(f"{key} ({regime}): dist depends on the margin: {cdist[k0]:.6g} with margin {margin}, {cdist[k1]:.6g} with margin 0", site, "dist-depends-on-margin", **rp)
+      elif float(cframe[k0][0] @ cframe[k1][0]) > 0.9995 and bad("pos-margin-independent", abs(float((cpos[k0] - cpos[k1]) @ cframe[k0][0])), tol_p):
+        acc.find(f"{key} ({regime}): contact position along the normal depends on the margin (by {float((cpos[k0] - cpos[k1]) @ cframe[k0][0]):.3g})", site, "pos-depends-on-margin", **rp)
+    acc.sample({"pairs": [f"{a}-{b}:{r}" for (a, b), r in zip(pairs, regimes)], "ncon": n}, limit=2)
+  return acc
+
+
 def correspondence(ctx):
   from harness.corr import func_corr
   fc = func_corr.run(GEN_FUNCS + ["math.normalize_with_norm_V3", "math.closest_segment_point_and_dist", "math.closest_segment_to_segment_points"],
                      ncases=192 if ctx.thorough else 48, seed=ctx.seed)
   evals, nontriv, samples, findings, hist = _oracle(ctx, 220 if ctx.thorough else 44)
-  return {"evaluations": fc["evaluations"] + evals, "distinct_nontrivial": fc["distinct_outputs"] + nontriv,
-          "rule": "func-level: random float32 arguments (uniform/normal/special); scene-level: two-geom scenes cycling over 11 primitive pairs (capsule-capsule twice) at random poses/sizes/margins, "
-                  "(capsule-capsule: half of the scenes end-to-end/L/V), deepest contact checked against the support-function gap along its own normal and the midway rule, "
-                  "contacts compared with mujoco.mj_collision and frames checked for orthonormality; nontrivial = scenes with at least one contact",
-          "samples": [fc["sample"]] + samples, "pair_hits": hist, "func_level": fc["functions"], "disagreements": fc["disagreements"], "findings": findings}
+  acc = _ccd_oracle(ctx, 40 if ctx.thorough else 8)
+  return {"evaluations": fc["evaluations"] + evals + acc.evals, "distinct_nontrivial": fc["distinct_outputs"] + nontriv + len(acc.distinct),
+          "rule": RULE, "samples": [fc["sample"]] + samples + acc.samples, "pair_hits": hist, "ccd_hits": acc.hist, "ccd_worst_error_over_tolerance": acc.worst,
+          "func_level": fc["functions"], "disagreements": fc["disagreements"], "findings": findings + acc.findings}
 
 
 def search(ctx, breaks):
   evals, nontriv, samples, findings, hist = _oracle(ctx, 440)
-  return {"oracle": "mujoco.mj_collision (dist/pos/normal) + frame orthonormality", "cases": evals, "pair_hits": hist, "outcome": "witness" if findings else "none", "findings": findings}
+  acc = _ccd_oracle(ctx, 60)
+  findings = findings + acc.findings
+  return {"oracle": "mujoco.mj_collision (dist/pos/normal) + frame orthonormality; convex pairs: support-function gap, closed form in the margin band, margin independence, MuJoCo C dist",
+          "cases": evals + acc.evals, "pair_hits": hist, "ccd_hits": acc.hist, "outcome": "witness" if findings else "none", "findings": findings}
